@@ -593,7 +593,7 @@ def run(shard, rec, rng):
                 # a map whose default subdomain is "www": rules either follow the default or sit explicitly on the bare domain
                 kw = rng.choice([{}, {"subdomain": ""}, {"subdomain": "api"}])
             if mode == "host":
-                kw["host"] = rng.choice(["h.com", "<string:hh>.h.com"])
+                kw["host"] = rng.choice(["h.com", "<string:hh>.h.com", "st.h.com"])
             defaults = None
             if convs and convs[-1] in ("int", "string") and rng.random() < 0.3:
                 # defaults pair: /e{i}/...(without last var) provides a default for the last variable
@@ -723,9 +723,9 @@ def run(shard, rec, rng):
                 if defaults and rng.random() < 0.4:
                     vals[defaults[0]] = defaults[1]
                 if kw.get("subdomain") == "<string:sd>":
-                    vals["sd"] = rng.choice(["abc", "x1"])
+                    vals["sd"] = rng.choice(["abc", "x1", "www"])  # "www": a name another rule of the map may carry literally
                 if kw.get("host") == "<string:hh>.h.com":
-                    vals["hh"] = rng.choice(["abc", "x1"])
+                    vals["hh"] = rng.choice(["abc", "x1", "st"])  # "st.h.com" may be another rule's literal host
                 extra = {"q": text(rng), "é": ["1", "2"], "e m": ""} if rng.random() < 0.4 else {}
                 fe = rng.random() < 0.5
                 case = {"rule": rs, "mode": mode, "script": script, "values": {k: repr(v) for k, v in vals.items()}, "extra": extra,
